@@ -289,7 +289,7 @@ class FnResult:
 
 
 def verify_function(lib, cls, fname, fnode, con, timeout_ms=10000, want_models=True, only=None, shard=None,
-                    carve=None):
+                    carve=None, only_prop=None):
     """callee side: returns FnResult with every obligation decided."""
     t0 = time.time()
     res = FnResult(cls, fname)
@@ -361,6 +361,9 @@ def verify_function(lib, cls, fname, fnode, con, timeout_ms=10000, want_models=T
     # decide obligations: all goals of one path state are first tried as one conjunction
     if only:
         obligs = [ob for ob in obligs if any(s in ob.name for s in only)]
+    if only_prop:
+        # a property check decides the obligations tagged with that property (the others belong to other checks)
+        obligs = [ob for ob in obligs if only_prop in ob.props]
     groups = {}
     order = []
     for ob in obligs:
